@@ -262,3 +262,121 @@ if old != text:
 base = os.path.join(base_dir, "Consts.lean.txt")
 drift = os.path.exists(base) and open(base).read() != text
 print(json.dumps({"found": len(found), "fallback": fallback, "differs_from_baseline": bool(drift), "items": found}))
+
+# ================================================================ configuration (C20): Gen/Config.lean
+config_rs = strip_comments(src("teos/src/config.rs"))
+cfound, cfallback = {}, {}
+
+def citem(name, value, baseline, note=""):
+    if value is None:
+        cfallback[name] = note or "not found"
+        return baseline
+    cfound[name] = True
+    return value
+
+# Config fields (struct order) and defaults
+m = re.search(r"pub struct Config\s*\{(.*?)\n\}", config_rs, flags=re.S)
+fields = re.findall(r"pub\s+(\w+)\s*:\s*([\w<>]+)\s*,", m.group(1)) if m else None
+fields = citem("configFields", fields, None)
+b = None
+m = re.search(r"impl Default for Config\s*\{.*?fn default\(\)\s*->\s*Self\s*\{\s*Self\s*\{(.*?)\}\s*\}\s*\}", config_rs, flags=re.S)
+defaults = None
+if m:
+    defaults = {}
+    for k, v in re.findall(r"(\w+)\s*:\s*([^,\n]+?)\s*,", m.group(1)):
+        v = v.strip()
+        if v == "String::new()":
+            v = ""
+        elif v.endswith(".into()"):
+            v = v[:-len(".into()")].strip().strip('"')
+        defaults[k] = v
+defaults = citem("configDefaults", defaults, None)
+# patch rules
+b = fn_body(config_rs, "patch_with_options")
+rules = None
+if b is not None and fields:
+    rules = {}
+    for f, _ in fields:
+        if re.search(r"if\s+options\." + f + r"\.is_some\(\)\s*\{\s*self\." + f + r"\s*=\s*options\." + f + r"\.unwrap\(\);\s*\}", b):
+            rules[f] = "cliOption"
+        elif re.search(r"self\." + f + r"\s*\|=\s*options\." + f + r"\s*;", b):
+            rules[f] = "orFlag"
+        elif re.search(r"self\." + f + r"\s*=\s*options\." + f + r"\s*;", b):
+            rules[f] = "cliOnly"
+        elif re.search(r"\b" + f + r"\b", b):
+            rules = None  # mentioned in a form the translator does not understand
+            break
+        else:
+            rules[f] = "fileOnly"
+rules = citem("patchRules", rules, None, "patch_with_options has a shape the translator does not understand")
+# CLI options (struct Opt)
+m = re.search(r"pub struct Opt\s*\{(.*?)\n\}", config_rs, flags=re.S)
+opts = re.findall(r"pub\s+(\w+)\s*:", m.group(1)) if m else None
+opts = citem("cliOptions", opts, None)
+# auth table
+b = fn_body(config_rs, "get_auth_method")
+auth = None
+if b:
+    arms = re.findall(r"\((true|false),\s*(true|false),\s*(true|false)\)\s*=>\s*AuthMethod::(\w+)", b)
+    dflt = re.search(r"_\s*=>\s*AuthMethod::(\w+)", b)
+    order = re.search(r"match\s*\(\s*self\.(\w+)\.is_empty\(\),\s*self\.(\w+)\.is_empty\(\),\s*self\.(\w+)\.is_empty\(\),?\s*\)", b)
+    if arms and dflt and order and [order.group(1), order.group(2), order.group(3)] == ["btc_rpc_user", "btc_rpc_password", "btc_rpc_cookie"]:
+        table = {}
+        for a in arms:
+            table[(a[0], a[1], a[2])] = a[3]
+        auth = []
+        for u in ("true", "false"):
+            for p in ("true", "false"):
+                for c in ("true", "false"):
+                    auth.append((u, p, c, table.get((u, p, c), dflt.group(1))))
+auth = citem("authTable", auth, None)
+# which auth methods verify() refuses
+b = fn_body(config_rs, "verify")
+refused = re.findall(r"auth_method\s*==\s*AuthMethod::(\w+)\s*\{\s*return Err", b or "")
+refused = citem("authRefused", refused if refused else None, None)
+nets = re.findall(r'"(\w+)"\s*=>\s*(\d+)\s*,', b or "")
+nets = citem("networkPorts", nets if nets else None, None)
+m = re.search(r'if\s*\[([^\]]*)\]\.contains\(&self\.btc_network\.as_str\(\)\)\s*\{\s*self\.btc_network\s*=\s*self\.btc_network\.trim_end_matches\("(\w+)"\)', b or "")
+trim = citem("networkTrim", ([x.strip().strip('"') for x in m.group(1).split(",")], m.group(2)) if m else None, None)
+m = re.search(r"if\s+self\.btc_rpc_port\s*==\s*(\d+)\s*\{\s*self\.btc_rpc_port\s*=\s*default_rpc_port", b or "")
+sentinel = citem("portSentinel", m.group(1) if m else None, None)
+
+cfg_path = os.path.join(gen_dir, "Config.lean")
+cfg_base = os.path.join(base_dir, "Config.lean.txt")
+if not cfallback:
+    def q(s):
+        return '"' + s.replace("\\", "\\\\").replace('"', '\\"') + '"'
+    C = ["/- GENERATED by tools/extract.py from teos/src/config.rs on every check run. Do not edit. -/",
+         "namespace Teos.Gen\n",
+         "/-- how `Config::patch_with_options` treats a field -/",
+         "inductive PatchRule where\n  | cliOption   -- `if options.f.is_some() { self.f = options.f.unwrap() }`\n  | orFlag      -- `self.f |= options.f`\n  | cliOnly     -- `self.f = options.f`\n  | fileOnly    -- not touched by the command line\nderiving DecidableEq, Repr\n",
+         "/-- every field of `Config`: name, default (`impl Default`), patch rule -/",
+         "def configFields : List (String × String × PatchRule) := ["]
+    C.append(",\n".join(f"  ({q(f)}, {q(defaults.get(f, '?'))}, .{rules[f]})" for f, _ in fields))
+    C.append("]\n")
+    C.append("/-- the fields of the command-line struct `Opt` -/")
+    C.append("def cliOptions : List String := [" + ", ".join(q(o) for o in opts) + "]\n")
+    C.append("/-- `Config::get_auth_method`: (user empty, password empty, cookie empty) ↦ method -/")
+    C.append("def authTable : List (Bool × Bool × Bool × String) := [")
+    C.append(",\n".join(f"  ({u}, {p}, {c}, {q(mth)})" for u, p, c, mth in auth))
+    C.append("]\n")
+    C.append("/-- methods `Config::verify` refuses -/")
+    C.append("def authRefused : List String := [" + ", ".join(q(x) for x in refused) + "]\n")
+    C.append("/-- `Config::verify`: network (after normalisation) ↦ default RPC port -/")
+    C.append("def networkPorts : List (String × Nat) := [" + ", ".join(f"({q(n)}, {p})" for n, p in nets) + "]\n")
+    C.append("/-- names normalised by dropping the given suffix -/")
+    C.append("def networkTrimmed : List String := [" + ", ".join(q(x) for x in trim[0]) + "]")
+    C.append(f"def networkTrimSuffix : String := {q(trim[1])}\n")
+    C.append(f"/-- the value of `btc_rpc_port` that means \"not set\" -/\ndef portSentinel : Nat := {sentinel}\n")
+    C.append("end Teos.Gen")
+    ctext = "\n".join(C) + "\n"
+    if not os.path.exists(cfg_path) or open(cfg_path).read() != ctext:
+        open(cfg_path, "w").write(ctext)
+elif os.path.exists(cfg_base) and not os.path.exists(cfg_path):
+    open(cfg_path, "w").write(open(cfg_base).read())
+elif os.path.exists(cfg_base):
+    # keep the baseline: config.rs has a shape the translator does not understand
+    if open(cfg_path).read() != open(cfg_base).read():
+        open(cfg_path, "w").write(open(cfg_base).read())
+print(json.dumps({"found": len(found) + len(cfound), "fallback": {**fallback, **cfallback},
+                  "differs_from_baseline": bool(drift), "items": found}))
